@@ -344,6 +344,80 @@ func c10b(c *Ctx, r *Report) {
 		}
 		r.Check(bad == "", clause, "R1 PROVENANCE", construct, c.pos(fv.Pos()), fmt.Sprintf("%s — %d writer(s), copy only", s.what, len(ws)), "the user's text no longer passes through unchanged: "+bad)
 	}
+	// … and the three sections arrive in the generated file, each exactly once and unedited: among the builder
+	// fields that the Go templates consult / the TypeScript generator writes, exactly one hole is fed by GetCode(),
+	// one by GetUion() and one by GetCodeCopy(), taken verbatim (%s, no replacement applied to it)
+	{
+		st := c.GetStaged()
+		type out struct {
+			name   string
+			shapes []Shape
+		}
+		var outs []out
+		for _, sc := range st.Configs {
+			if sc.V.Http || sc.Eval == nil || sc.Used == nil {
+				continue
+			}
+			o := out{name: sc.V.Name}
+			for fname := range sc.Used {
+				if fv := sc.FieldOf[fname]; fv != nil {
+					if sh, ok := sc.Eval.fields[fv]; ok {
+						o.shapes = append(o.shapes, sh)
+					}
+				}
+			}
+			outs = append(outs, o)
+		}
+		if st.TS != nil && st.TS.Eval != nil {
+			o := out{name: "typescript"}
+			for _, fname := range st.TS.Order {
+				if sh, _ := fieldShapeOf(st.TS.Eval, fname); sh != nil {
+					o.shapes = append(o.shapes, sh)
+				}
+			}
+			outs = append(outs, o)
+		}
+		for _, o := range outs {
+			for _, sec := range []struct{ what, getter string }{{"prologue", ".GetCode()"}, {"union", ".GetUion()"}, {"epilogue", ".GetCodeCopy()"}} {
+				n, edited := 0, false
+				for _, sh := range o.shapes {
+					var visit func(x Shape, inRepl bool)
+					visit = func(x Shape, inRepl bool) {
+						switch v := x.(type) {
+						case *SHole:
+							if strings.HasSuffix(v.Path, sec.getter) {
+								n++
+								if inRepl || v.Verb != "s" {
+									edited = true
+								}
+							}
+						case *SCat:
+							for _, p := range v.Parts {
+								visit(p, inRepl)
+							}
+						case *SLoop:
+							visit(v.Body, true) // repeated = not "exactly once"
+						case *SAlt:
+							visit(v.Then, true)
+							visit(v.Else, true)
+						case *SRepl:
+							visit(v.Base, true)
+							visit(v.New, true)
+						case *SQuote:
+							visit(v.Inner, true)
+						}
+					}
+					visit(sh, false)
+				}
+				r.Check(n == 1 && !edited, clause, "R1 PROVENANCE", "output "+o.name+"/"+sec.what+"-arrives-unchanged", "Builder",
+					"the "+sec.what+" is pasted into the generated file exactly once, verbatim ("+strings.TrimPrefix(sec.getter, ".")+")",
+					fmt.Sprintf("the %s does not arrive in the generated file exactly once and verbatim (%d occurrence(s) of %s in the emitted fragments, edited/conditional: %v)", sec.what, n, strings.TrimPrefix(sec.getter, "."), edited))
+			}
+		}
+		if len(outs) < 5 {
+			r.Undecided(clause, "R1 PROVENANCE", "output/sections", "Builder", fmt.Sprintf("only %d of 5 outputs staged", len(outs)))
+		}
+	}
 	// locals Codestr / Unionstr in parseDeclare: += / = of the current token's Value under the matching kind
 	if f := c.need(r, clause, "Parser", "parser", "parseDeclare"); f != nil {
 		info := f.Pkg.TypesInfo
